@@ -1,7 +1,10 @@
 // Package c04 holds positive controls for the C04 rules.
 package c04
 
-import "errors"
+import (
+	"errors"
+	"math"
+)
 
 type ByteOrder uint8
 
@@ -56,4 +59,17 @@ func (r Regs) spurious(address uint16, order ByteOrder) ([]byte, error) {
 	}
 	i := int(address-r.start) * 2
 	return r.data[i : i+2], nil
+}
+
+// floatDetour: a decoded float32 routed through float64 and back (R4.8).
+func floatDetour(u uint32) float32 {
+	return float32(widen(math.Float32frombits(u)))
+}
+
+func widen(f float32) float64 { return float64(f) }
+
+// floatInspect: a widened copy that is only inspected must not be reported.
+func floatInspect(u uint32) (float32, bool) {
+	f := math.Float32frombits(u)
+	return f, math.IsNaN(float64(f))
 }
